@@ -51,8 +51,10 @@ impl Vector<f64> {
     pub fn norm_inf(&self) -> f64 {
         let mut result = self.vec[0].abs();
         for i in 1..self.size() {
-            if result < self.vec[i].abs() {
-                result = self.vec[i].abs();
+            let a = self.vec[i].abs();
+            // a NaN entry makes the norm NaN wherever it sits (not only in position 0)
+            if result < a || a.is_nan() {
+                result = a;
             }
         }
         result
